@@ -329,6 +329,15 @@ fn configs(thorough: bool) -> Vec<Cfg> {
             }
         }
     }
+    // RaptorQ partitions the receiver has to rebuild from (F, T, Z) alone: equal blocks, more blocks than
+    // symbols per block, single-symbol blocks - with and without MD5
+    for (e, b, len) in [(4u16, 1u16, 8usize), (4, 1, 12), (4, 2, 24), (4, 2, 16), (2, 3, 24), (4, 3, 12)] {
+        for md5 in [false, true] {
+            let mut x = c(Scheme::RaptorQ, e, b, 1, len, 0, true, 1, false, 1);
+            x.md5 = md5;
+            v.push(x);
+        }
+    }
     // RaptorQ / Raptor with sub-blocks (N) and alignment: the scheme-specific information reaches the
     // receiver through EXT_FTI or through the FDT attribute; without MD5 nothing else protects the bytes
     for (scheme, e, b, al, n, len) in [(Scheme::RaptorQ, 1400u16, 2u16, 4u8, 300u16, 2900usize), (Scheme::RaptorQ, 1400, 2, 4, 257, 1399), (Scheme::RaptorQ, 8, 2, 4, 2, 19), (Scheme::Raptor, 64, 4, 8, 8, 500)] {
